@@ -3,16 +3,17 @@ from props_common import COMMON_TRUSTED
 CONFIG = {
     "areas": ["signers"],
     "lean": ["VProps.C06"],
-    "sources": ["VProps/C06.lean", "VModel/Signers.lean", "VModel/Event.lean", "VModel/GoJson.lean"],
+    "sources": ["VProps/C06.lean", "VModel/Signers.lean", "VModel/Event.lean", "VModel/GoJson.lean", "VModel/Sign.lean", "VModel/Auth.lean"],
     "theorems": [
         "V.C06.columns_eq_spec", "V.C06.required_eq_spec", "V.C06.verify_iff", "V.C06.verify_iff_spec",
         "V.C06.undeterminable_rejects", "V.C06.others_irrelevant", "V.C06.one_bad_fails", "V.C06.bad_sender_rejects",
-        "V.C06.no_panic",
+        "V.C06.no_panic", "V.C06.pseudo_sender_required", "V.C06.pseudo_mapping_signers_valid",
     ],
     "rule": "events of every membership (join/invite/leave/ban/knock/odd) and non-member types x all 16 room versions; senders, "
             "state keys and join_authorised_via_users_server on several domains (ports, IP literals, punycode), malformed IDs "
             "(no sigil, no colon, empty server), non-string / null / case-variant members, v1/v2 event IDs naming other servers or "
-            "malformed; for each event a probe run learns which servers are asked, then EVERY subset of them answers valid while "
+            "malformed; pseudo-ID (msc4014) events really signed with generated ed25519 sender / invitee keys (absent, other key ID, "
+            "corrupted), mxid_mapping absent / unsigned / signed by the user's server / by another server / ill-typed; for each event a probe run learns which servers are asked, then EVERY subset of them answers valid while "
             "the rest fail, with unrelated servers answering either way; the scripted JSONVerifier records server, timestamp, "
             "validity rule and whether the message is RedactEventJSON(event). Every op is a distinct (event, verifier script) pair; "
             "distinct by op line",
@@ -27,6 +28,10 @@ CONFIG = {
         "userIDForSender is the standard resolver spec.NewUserID(sender, true); a (nil, nil) answer ('no sender signature needed') "
         "is the caller's contract and not claimed",
         "the verifier returns one result per request (its documented contract)",
-        "room version org.matrix.msc4014 (pseudo IDs: sender key self-verification, mxid_mapping) is modelled separately",
+        "room version org.matrix.msc4014 (pseudo IDs) has its own model (verifyPseudo): JSONVerifierSelf is an oracle selfValid(name) "
+        "computed by the generator with VerifyJSON over RedactEventJSON(event) (C02, C05); the specification stream demands, for a "
+        "join, a valid mxid_mapping signature of the server of mxid_mapping.user_id (the sender's server) and is silent otherwise",
+        "outside the claim (observed, not judged): in an msc4014 room the server named by join_authorised_via_users_server is handed to "
+        "JSONVerifierSelf, which base64-decodes the SERVER NAME as a public key, so a restricted join can never verify there",
     ],
 }
